@@ -90,6 +90,9 @@ struct Ledger {
     /// Per request: the distinct message ids peers saw in datagrams (one per
     /// transmission attempt).
     dgram_ids: BTreeMap<usize, BTreeSet<u16>>,
+    /// Requests whose complete answer a peer wrote into a connection it then
+    /// closed in an orderly way (FIN behind the data), nothing else wrong.
+    answered_before_fin: BTreeSet<usize>,
 }
 
 type Led = Rc<RefCell<Ledger>>;
@@ -132,6 +135,11 @@ struct Knobs {
     /// Datagram transport: requests in flight at once / receive buffer size.
     dg_max_parallel: usize,
     dg_recv_size: usize,
+    /// Orderly-close mode (otherwise fault-free runs of the stream
+    /// transports): after this many requests on a connection the peer sends
+    /// every answer it owes in one go and closes its side (FIN) right behind
+    /// them. 0 = off.
+    fin_after: u32,
 }
 
 /// Per-server disposition for the composite transports.
@@ -394,9 +402,17 @@ async fn stream_conn_peer(led: Led, kn: Knobs, server: usize, health: Health, ac
     let mut desynced = false;
     let mut tmp = [0u8; 4096];
     let mut closing: Option<Cut> = None;
+    let mut n_rx = 0u32;
+    let mut orderly = false;
     loop {
         // Write everything that is due.
         let now = sim::now_ns();
+        if orderly {
+            // Everything owed goes out now, in one go, the FIN behind it.
+            for p in pending.iter_mut() {
+                p.0 = 0;
+            }
+        }
         pending.sort_by_key(|p| p.0);
         while let Some((due, _, _)) = pending.first() {
             if *due > now {
@@ -419,6 +435,9 @@ async fn stream_conn_peer(led: Led, kn: Knobs, server: usize, health: Health, ac
                             let mut l = led.borrow_mut();
                             if l.answered_ns[*k].is_none() {
                                 l.answered_ns[*k] = Some(sim::now_ns());
+                            }
+                            if orderly {
+                                l.answered_before_fin.insert(*k);
                             }
                         }
                     }
@@ -513,6 +532,12 @@ async fn stream_conn_peer(led: Led, kn: Knobs, server: usize, health: Health, ac
             }
             if let Some(c) = r.close {
                 closing = Some(c);
+            }
+            n_rx += 1;
+            if kn.fin_after > 0 && n_rx == kn.fin_after && closing.is_none() {
+                fault(&led, Scope::Global, "fault.s.answer_all_then_fin");
+                orderly = true;
+                closing = Some(Cut::Fin);
             }
         }
     }
@@ -740,6 +765,7 @@ async fn run(_tier: Tier) {
         },
         dg_max_parallel: *sim::pick("cfg.dg_max_parallel", &[100usize, 1, 2]),
         dg_recv_size: *sim::pick("cfg.dg_recv_size", &[2000usize, 512, 100]),
+        fin_after: if !faulty && matches!(kind, Kind::Stream | Kind::Multi) && sim::chance("cfg.orderly_fin", 1, 2) { 2 + sim::draw("cfg.fin_after", 3) as u32 } else { 0 },
     };
     ev!("knobs {:?}", kn);
 
@@ -1064,6 +1090,19 @@ fn check(led: &Led, kn: &Knobs, total: usize, finished: bool, connect_faults: &[
             }
             Outcome::Abandoned => {}
             Outcome::Err(e) => {
+                // Orderly-close mode: the only disturbance of the run is a
+                // peer that closes its side right behind complete answers.
+                // What it had answered by then has arrived in full before the
+                // end of the stream and has to be delivered.
+                if kn.fin_after > 0 && l.answered_before_fin.contains(&k) && connect_faults.is_empty() {
+                    sim::violation(
+                        P,
+                        "completion",
+                        format!("answered-before-orderly-close-but-failed/{:?}", kn.kind),
+                        format!("request k={} failed with {} although the peer had written its complete answer before it closed its side of the connection (FIN behind the data, nothing else wrong in this run)", k, e),
+                    );
+                    return;
+                }
                 if explained {
                     continue;
                 }
